@@ -221,7 +221,7 @@ pub mod watchdog {
     static START: Once = Once::new();
 
     pub fn hang_limit_s() -> f64 {
-        super::env_u64("VERIF_HANG_S", 40) as f64
+        super::env_u64("VERIF_HANG_S", 90) as f64
     }
 
     pub fn arm(limit_s: f64, action: Action) {
@@ -335,7 +335,7 @@ pub fn replay_file<S: Scenario>(rf: &ReplayFile, path: &str) -> i32 {
     let sc: S = match serde_json::from_value(rf.scenario.clone()) {
         Ok(s) => s,
         Err(e) => {
-            println!("HARNESS-ERROR: cannot parse scenario of {path}: {e}");
+            out!("HARNESS-ERROR: cannot parse scenario of {path}: {e}");
             return 2;
         }
     };
@@ -346,11 +346,11 @@ pub fn replay_file<S: Scenario>(rf: &ReplayFile, path: &str) -> i32 {
             limit,
             Box::new(move || {
                 if recorded == HANG_CLASS {
-                    println!("replay reproduced: class={HANG_CLASS} (no result within {limit} s)");
-                    println!("VIOLATION property={prop} replay={path2}");
+                    out!("replay reproduced: class={HANG_CLASS} (no result within {limit} s)");
+                    out!("VIOLATION property={prop} replay={path2}");
                     std::process::exit(1);
                 }
-                println!("HARNESS-ERROR: replay of {path2} hangs (recorded class={recorded})");
+                out!("HARNESS-ERROR: replay of {path2} hangs (recorded class={recorded})");
                 std::process::exit(2);
             }),
         );
@@ -364,12 +364,12 @@ pub fn replay_file<S: Scenario>(rf: &ReplayFile, path: &str) -> i32 {
     if rf.class == HANG_CLASS {
         return match &out.violation {
             Some(v) => {
-                println!("replay of {path}: the recorded hang is gone, but the scenario violates class={}: {}", v.class, v.detail);
-                println!("VIOLATION property={} replay={}", rf.property, path);
+                out!("replay of {path}: the recorded hang is gone, but the scenario violates class={}: {}", v.class, v.detail);
+                out!("VIOLATION property={} replay={}", rf.property, path);
                 1
             }
             None => {
-                println!("replay of {path}: finished without violation on the current tree (recorded class={HANG_CLASS})");
+                out!("replay of {path}: finished without violation on the current tree (recorded class={HANG_CLASS})");
                 0
             }
         };
@@ -377,19 +377,19 @@ pub fn replay_file<S: Scenario>(rf: &ReplayFile, path: &str) -> i32 {
     let lh = format!("{:016x}", out.log_hash);
     match &out.violation {
         Some(v) if v.class == rf.class && lh == rf.log_hash && !out.diverged => {
-            println!("replay reproduced: class={} log_hash={} detail={}", v.class, lh, v.detail);
-            println!("VIOLATION property={} replay={}", rf.property, path);
+            out!("replay reproduced: class={} log_hash={} detail={}", v.class, lh, v.detail);
+            out!("VIOLATION property={} replay={}", rf.property, path);
             1
         }
         Some(v) => {
-            println!(
+            out!(
                 "HARNESS-ERROR: replay of {path} gave class={} log_hash={} diverged={} (recorded class={} log_hash={})",
                 v.class, lh, out.diverged, rf.class, rf.log_hash
             );
             2
         }
         None => {
-            println!(
+            out!(
                 "replay of {path}: no violation under strict replay (recorded class={}); log_hash={} diverged={}",
                 rf.class, lh, out.diverged
             );
@@ -399,12 +399,12 @@ pub fn replay_file<S: Scenario>(rf: &ReplayFile, path: &str) -> i32 {
                 let t = sc.execute(&Plan::Replay { traces: rf.traces.clone(), strict: false });
                 if let Some(v) = &t.violation {
                     if v.class == rf.class {
-                        println!("tolerant replay (schedule followed while possible) reproduces class={}: {}", v.class, v.detail);
-                        println!("VIOLATION property={} replay={}", rf.property, path);
+                        out!("tolerant replay (schedule followed while possible) reproduces class={}: {}", v.class, v.detail);
+                        out!("VIOLATION property={} replay={}", rf.property, path);
                         return 1;
                     }
                 }
-                println!("tolerant replay: no violation of the recorded class on the current tree");
+                out!("tolerant replay: no violation of the recorded class on the current tree");
             }
             0
         }
@@ -769,7 +769,7 @@ pub fn search<S: Scenario>(cfg: &SearchCfg) -> SearchReport<S> {
     let _ = std::fs::remove_dir_all(&dir);
     if !harness_errors.is_empty() {
         for e in &harness_errors {
-            println!("HARNESS-ERROR: {e}");
+            out!("HARNESS-ERROR: {e}");
         }
         std::process::exit(2);
     }
@@ -882,7 +882,7 @@ pub fn conclude<S: Scenario>(rep: &SearchReport<S>, base_seed: u64) -> (i32, u64
     let known = load_known_findings(S::PROP);
     for (sig, (n, first)) in &rep.known_hits {
         if let Some(k) = known.iter().find(|k| &k.signature == sig) {
-            println!(
+            out!(
                 "KNOWN-FINDING: property={} {} (signature={}, hit {} times, first at index {})",
                 S::PROP, k.text, sig, n, first
             );
@@ -892,16 +892,16 @@ pub fn conclude<S: Scenario>(rep: &SearchReport<S>, base_seed: u64) -> (i32, u64
     let mut code = 0;
     for (idx, path, sig) in &rep.hung {
         if let Some(k) = known.iter().find(|k| &k.signature == sig) {
-            println!("KNOWN-FINDING: property={} {} (signature={}, run {} never finished)", S::PROP, k.text, sig, idx);
+            out!("KNOWN-FINDING: property={} {} (signature={}, run {} never finished)", S::PROP, k.text, sig, idx);
             continue;
         }
         new_violations += 1;
         if code == 0 {
-            println!(
+            out!(
                 "violation found: property={} index={} class={} (the run never reached another scheduling point within {} s)",
                 S::PROP, idx, HANG_CLASS, watchdog::hang_limit_s()
             );
-            println!("VIOLATION property={} replay={}", S::PROP, path);
+            out!("VIOLATION property={} replay={}", S::PROP, path);
             code = 1;
         }
     }
@@ -924,7 +924,7 @@ pub fn conclude<S: Scenario>(rep: &SearchReport<S>, base_seed: u64) -> (i32, u64
         match st {
             Ok(s) if s.code() == Some(1) => code = 1,
             other => {
-                println!("HARNESS-ERROR: reporter for index {idx} ended with {other:?}");
+                out!("HARNESS-ERROR: reporter for index {idx} ended with {other:?}");
                 std::process::exit(2);
             }
         }
@@ -942,18 +942,18 @@ pub fn reporter_main<S: Scenario>(tier: Tier, base_seed: u64, idx: u64) -> i32 {
             let prop_seed = derive(base_seed, S::LABEL);
             let sc = S::generate(derive(prop_seed, idx), tier, idx);
             let path = write_hang_replay(&sc, base_seed, idx, limit);
-            println!("violation found: property={} index={idx} class={HANG_CLASS}", S::PROP);
-            println!("VIOLATION property={} replay={}", S::PROP, path);
+            out!("violation found: property={} index={idx} class={HANG_CLASS}", S::PROP);
+            out!("VIOLATION property={} replay={}", S::PROP, path);
             std::process::exit(1);
         }),
     );
     let (sc, out) = run_one::<S>(base_seed, tier, idx);
     watchdog::disarm();
     let Some(v) = out.violation.clone() else {
-        println!("HARNESS-ERROR: violation at index {idx} did not reproduce in the reporter process");
+        out!("HARNESS-ERROR: violation at index {idx} did not reproduce in the reporter process");
         return 2;
     };
-    println!("violation found: property={} index={} class={} detail={}", S::PROP, idx, v.class, v.detail);
+    out!("violation found: property={} index={} class={} detail={}", S::PROP, idx, v.class, v.detail);
     let path = write_replay(&sc, &out, base_seed, idx, &MinStats::default());
     let budget_ms = env_u64("VERIF_MINIMISE_MS", 20_000);
     {
@@ -961,8 +961,8 @@ pub fn reporter_main<S: Scenario>(tier: Tier, base_seed: u64, idx: u64) -> i32 {
         watchdog::arm(
             limit + budget_ms as f64 / 1000.0,
             Box::new(move || {
-                println!("minimisation did not come back; keeping the unminimised replay file");
-                println!("VIOLATION property={} replay={}", S::PROP, path);
+                out!("minimisation did not come back; keeping the unminimised replay file");
+                out!("VIOLATION property={} replay={}", S::PROP, path);
                 std::process::exit(1);
             }),
         );
@@ -971,7 +971,7 @@ pub fn reporter_main<S: Scenario>(tier: Tier, base_seed: u64, idx: u64) -> i32 {
     watchdog::disarm();
     let path = write_replay(&msc, &mout, base_seed, idx, &ms);
     let mv = mout.violation.as_ref().unwrap();
-    println!(
+    out!(
         "minimised: size {} -> {}, trace {} -> {} decisions, {} shrink steps; class={} detail={}",
         ms.orig_size,
         msc.size(),
@@ -981,6 +981,6 @@ pub fn reporter_main<S: Scenario>(tier: Tier, base_seed: u64, idx: u64) -> i32 {
         mv.class,
         mv.detail
     );
-    println!("VIOLATION property={} replay={}", S::PROP, path);
+    out!("VIOLATION property={} replay={}", S::PROP, path);
     1
 }
